@@ -3,8 +3,6 @@ package files
 import (
 	"os"
 	"strings"
-
-	"github.com/jmeaster30/vore/libvore/algo"
 )
 
 type PathEntryType int
@@ -51,35 +49,33 @@ func ParsePath(path string) *Path {
 }
 
 func pathMatches(target string, matches string) bool {
-	if !strings.ContainsRune(matches, '*') {
-		return target == matches
-	}
-
-	matchParts := algo.Window(algo.SplitKeep(matches, "*"), 2)
-
-	result := true
-	for _, part := range matchParts {
-		if len(part) == 1 {
-			if part[0] != "*" && target != part[0] {
-				result = false
-			}
-			break
-		} else if part[0] == "*" {
-			splitStart := strings.Index(target, part[1])
-			if splitStart == -1 {
-				target = ""
-			} else {
-				target = target[splitStart:]
-			}
-		} else if strings.HasPrefix(target, part[0]) {
-			target = strings.TrimPrefix(target, part[0])
-			// FIXME doesn't account for relative folders ie `./docs/examples`
+	// `*` stands for any run of characters (possibly empty), everything else must match literally
+	// FIXME doesn't account for relative folders ie `./docs/examples`
+	targetIndex := 0
+	matchIndex := 0
+	starIndex := -1 // index of the last `*` seen in matches
+	starTarget := 0 // index in target where the run covered by that `*` ends
+	for targetIndex < len(target) {
+		if matchIndex < len(matches) && matches[matchIndex] == '*' {
+			starIndex = matchIndex
+			starTarget = targetIndex
+			matchIndex += 1
+		} else if matchIndex < len(matches) && matches[matchIndex] == target[targetIndex] {
+			targetIndex += 1
+			matchIndex += 1
+		} else if starIndex != -1 {
+			// mismatch so let the last `*` cover one more character and try again
+			starTarget += 1
+			targetIndex = starTarget
+			matchIndex = starIndex + 1
 		} else {
-			result = false
-			break
+			return false
 		}
 	}
-	return result
+	for matchIndex < len(matches) && matches[matchIndex] == '*' {
+		matchIndex += 1
+	}
+	return matchIndex == len(matches)
 }
 
 func directoryExists(entries []os.DirEntry, name string) bool {
